@@ -131,6 +131,9 @@ def gen_plan(seed, tier="quick", variant=None):
             faults.append({"t": round(max(0.1, t_m - 0.1 - rng.random() * 0.3), 6), "act": "add_partitions", "topic": rng.choice(names), "n": rng.randint(1, 2)})
         if rng.random() < 0.4:
             faults.append({"api": 3, "node": None, "nth": 0, "act": "error", "code": rng.choice([5, 3]), "count": rng.choice([1, 2, 4]), "from_t": round(t_m - 0.02, 6)})
+            if len(names) > 1 and rng.random() < 0.6:
+                # ... for one topic only (being created, leaderless): the other topics of the subscription are answered fine
+                faults[-1]["only_topics"] = [rng.choice(names)]
         else:
             # no broker (nor the bootstrap host) answers metadata requests for a while: the lookup times out everywhere and fails outright
             faults.append({"api": 3, "node": None, "nth": 0, "act": "silent", "count": rng.choice([nb + 1, 2 * (nb + 1), 4 * (nb + 1)]), "from_t": round(t_m - 0.02, 6)})
@@ -217,6 +220,12 @@ def gen_plan(seed, tier="quick", variant=None):
             f["hold"] = round((nb + 1) * cfg["client"]["timeout_ms"] / 1000.0 * 1.2 + 0.3, 6)
     t_end = max([horizon] + [f["t"] for f in faults if "t" in f] + [o["t"] for o in ops] + [p["end_t"] for p in phantoms] + [p["join_t"] for p in phantoms] +
                 [f["from_t"] + f.get("hold", 0.0) for f in faults if "from_t" in f])
+    if not same_subs and len(names) > 1 and rng.random() < 0.3:
+        # a subscription list that names a topic twice (topics=base + extra is all it takes): still the same subscription
+        short = [m for m in members if len(set(m["topics"])) < len(names)]
+        if short:
+            m = rng.choice(short)
+            m["topics"] = list(m["topics"]) + [rng.choice(m["topics"]) for _ in range(len(names) - len(m["topics"]))]
     for o in ops:
         if o["op"] == "stop" and "on_leader_join" not in o and rng.random() < 0.2:
             o["in_proc"] = True  # issued from inside the member's next processor call
